@@ -21,6 +21,8 @@ import (
 // connections. Not a differential stream: the Spec oracles ExactlyOne (C01) and Routed (C02) are
 // evaluated on what the clients observed.
 // op:   S:<seed> L:<clients> N:<requests per client> H:<hosts> C:<conns> K:<connection kills> B:<burst: hold answers until this many are outstanding>
+//       R:<ms>: the clients do not read any answer for the first <ms> milliseconds (a slow reader: the proxy's write
+//       queue and the socket buffers fill up; every answer must still arrive once the client reads)
 // real: sent=<n> answered=<n> [anomaly...]
 
 func init() { streams["storm"] = stream{gen: genStorm, run: runStorm} }
@@ -31,7 +33,7 @@ func runStorm(op string) (out string) {
 			out = fmt.Sprintf("panic:%v", p)
 		}
 	}()
-	par := map[string]int{"S": 1, "L": 4, "N": 100, "H": 2, "C": 1, "K": 0, "B": 0}
+	par := map[string]int{"S": 1, "L": 4, "N": 100, "H": 2, "C": 1, "K": 0, "B": 0, "R": 0}
 	for _, t := range strings.Fields(op) {
 		if len(t) > 2 && t[1] == ':' {
 			v, _ := strconv.Atoi(t[2:])
@@ -76,7 +78,11 @@ func runStorm(op string) (out string) {
 		var msg message.Message
 		switch {
 		case c < 80:
-			msg = rowsWith(tag)
+			if par["R"] > 0 { // big answers: socket buffers and the proxy's write queue must actually fill
+				msg = rowsWith(tag + strings.Repeat("x", 6000))
+			} else {
+				msg = rowsWith(tag)
+			}
 		case c < 86:
 			msg = errFor("un", tag)
 		case c < 92:
@@ -173,12 +179,18 @@ func runStorm(op string) (out string) {
 			if burst > 0 {
 				window = 4096
 			}
+			if par["R"] > 0 {
+				window = 1 << 15
+			}
 			sem := make(chan struct{}, window)
 			done := make(chan struct{})
 			expected := int64(nreq)
 			var got int64
 			go func() { // reader
 				defer close(done)
+				if par["R"] > 0 {
+					time.Sleep(time.Duration(par["R"]) * time.Millisecond)
+				}
 				for atomic.LoadInt64(&got) < expected {
 					r, err := cl.Recv(8 * time.Second)
 					if err != nil {
@@ -298,6 +310,9 @@ func genStorm(e *emitter, r *rng.R, n int, tier string) {
 			l, nr = 3, 1000
 		}
 		ops = append(ops, fmt.Sprintf("S:%d L:%d N:%d H:%d C:%d K:%d B:%d", rr.Intn(1<<30), l, nr, 1+rr.Intn(3), 1+rr.Intn(2), []int{0, 3, 10, 30}[rr.Intn(4)], burst))
+		if i%20 == 7 { // a client that pipelines thousands of requests before it reads the first answer
+			ops = append(ops, fmt.Sprintf("S:%d L:%d N:%d H:2 C:1 K:0 B:0 R:%d", rr.Intn(1<<30), 1+rr.Intn(2), 3000+rr.Intn(2000), 800+rr.Intn(1200)))
+		}
 	}
 	e.emitAll(ops, 4)
 }
